@@ -104,3 +104,9 @@ proof('C06', 'Machine-checked for EVERY finite pixel with components of magnitud
       'white maps to white and greys to greys within 1e-5 for the computed conversion; identical primaries return the data bit-exactly unchanged (same_primaries). Ingredients: (N) the 40 model matrices are entry-wise within 1.2e-6 of the exact ones (native_decide, '
       're-evaluated on regenerated constants); (K) checker soundness + dot-product rounding analysis. Not proved as a theorem: "there and back within 1e-5 for every pixel" (evaluated for white, oracle for random pixels).',
       'Lean 4: exact rational CIE derivation + evaluated matrix closeness (native_decide) + rounding analysis over the reals; correspondence ties the model to the code')
+
+proof('C16', 'Every clause is machine-checked. YUV->RGB: for every standard matrix, range, depth 8..16, FMA mode and EVERY luma code, neutral chroma decodes to R=G=B within 5e-7, nominal black to exactly 0, nominal white to 1 within 1e-6 '
+      '(grey_axis: exhaustive native_decide over 3.67 million cases + soundness lemma, exact dyadic comparisons). Curves: every non-log curve maps 0 to 0 within 1e-6 and 1 to 1 within its budget (curve_anchors, evaluated; HLG linear->gamma at 1 goes through libm ln and is excluded). '
+      'Primaries: every supported conversion maps every grey of magnitude <= 2 to a grey within 1e-5 per component (prim_grey, corollary of C06.prim_close: exact row sums are 1). XYB and HSL: for every grey level i/2^20, i = 0..2^20: |X| <= 1e-6, |Y-B| <= 1e-6, black -> 0 within 1e-6, '
+      'HSL = (0, 0, v) bit for bit (xyb_grey, hsl_grey: exhaustive native_decide in 16 slices lifted by allFrom_spec). native_decide theorems trust the Lean compiler/runtime in addition to the kernel.',
+      'Lean 4: exhaustive evaluation of the bit-exact model (native_decide) with soundness lemmas + corollary of the C06 real analysis; correspondence ties the model to the code')
